@@ -126,8 +126,13 @@ theorem restart_choice (folder : List Nat) (ts : List Nat) (hne : ts ≠ []) (h6
 
 example : uncodes (fileName (codes "sim_0.1") gridConv 42) = "sim_0.1/grid_000042.h5" := by decide
 
+/-- non-vacuity: three checkpoints with 1, 3 and 2 digit times listed in arbitrary order: the one of t = 100 is chosen -/
+example : restartChoice ([5, 100, 99].map (fileName (codes "run_1") gridConv)) = some (fileName (codes "run_1") gridConv 100, 100) := by
+  decide
+
 /-! ### 3. the driver's bookkeeping (on the generated script) -/
 
+set_option linter.unusedSimpArgs false in
 /-- everything before the loop, in closed form -/
 theorem pre_counters (s : CState) : execStmtsC s driver.pre = preSpec s := by
   unfold preSpec
@@ -135,6 +140,7 @@ theorem pre_counters (s : CState) : execStmtsC s driver.pre = preSpec s := by
     simp [driver, execStmtsC, execStmtC, execSimplesC, execSimpleC, Cond.eval, Expr.eval, CState.get, CState.set,
       CState.emit, h]
 
+set_option linter.unusedSimpArgs false in
 /-- one pass through the loop body, in closed form: the time advances by `dt`, `ti` and `nLoops` by one, exactly the
 passes with `ti % saveStep = saveStep - 1` write the two checkpoints and print the slots `[startPrint, min(saveStep, ti+1))`,
 after which `startPrint` is reset -/
@@ -146,6 +152,7 @@ theorem body_counters (s : CState) : execStmtsC s driver.body = bodySpec s := by
       CState.emit, h]
   all_goals (try (cases s.crashed <;> by_cases hz : s.nLoops + 1 = 0 <;> simp [hz]))
 
+set_option linter.unusedSimpArgs false in
 /-- everything after the loop: a final checkpoint unless the last pass wrote one -/
 theorem post_counters (s : CState) : execStmtsC s driver.post = postSpec s := by
   unfold postSpec
@@ -287,7 +294,7 @@ theorem final_state_checkpointed (S dt k0 : Int) (hS : 1 ≤ S) (hdt : 1 ≤ dt)
         cases hl : s.loadable
         · left; left
           have := h.fresh hl
-          simp [hl, this]
+          simp [this]
         · exfalso; exact hnot ⟨hl, rfl, by simpa using hz0⟩
       | succ n =>
         left; right
